@@ -76,6 +76,15 @@ def gen_session(rng, sid, nops):
         if op["op"] != "hold" and out == -1:
             nlists += 1   # the id is consumed even if the call fails: ids are never reused
         ops.append(op)
+    if rng.random() < 0.25:
+        # a list first filled by a tokenizer with a restricted field request, then reused by lookup, then split: nothing of the
+        # earlier use (its field request in particular) may show in the later results
+        f = rng.choice([["surface"], [], ["pos"], ["normalized_form"]])
+        t = ntk
+        ops.append({"op": "create", "tk": t, "mode": rng.choice([-1, 2]), "fields": f, "projection": "surface"})
+        ops.append({"op": "tokenize", "tk": t, "text": cps(rng.choice(["東京都に行った", "京都"])), "mode": -1, "out": -1, "new": nlists})
+        ops.append({"op": "lookup", "text": cps(rng.choice(["東京都", "東京府"])), "out": nlists, "new": nlists + 1})
+        ops.append({"op": "split", "list": nlists, "idx": 0, "mode": rng.choice([0, 1]), "out": -1, "new": nlists + 1, "add_single": True})
     return {"sess": sid, "cfg": rng.choice(CFGS), "ops": ops}
 
 
